@@ -164,6 +164,44 @@ func c10L1(r *Run) {
 			return true
 		})
 	}
+	// ... and its own connection: the connection field of a Client only ever receives a connection made for it
+	// (newConn(...)); a copy of another client's connection puts one connection under two mutexes
+	nConn, sharedAt, sharedIn := 0, token.NoPos, ""
+	for _, fn := range pkgFuncs(p, "kmipclient") {
+		allInstrs(fn, func(in ssa.Instruction) {
+			st, ok := in.(*ssa.Store)
+			if !ok {
+				return
+			}
+			fa, ok := st.Addr.(*ssa.FieldAddr)
+			if !ok || typeName(derefType(fa.X.Type())) != "Client" {
+				return
+			}
+			ft := derefStruct(fa.X.Type()).Field(fa.Field).Type()
+			if pt, isPtr := ft.(*types.Pointer); !isPtr || typeName(pt.Elem()) != "conn" {
+				return
+			}
+			nConn++
+			v := st.Val
+			if isNilConst(v) {
+				return
+			}
+			if c, ok := v.(*ssa.Call); ok {
+				if callee := c.Call.StaticCallee(); callee != nil && idOf(callee).is(cliPath, "", "newConn") {
+					return
+				}
+			}
+			sharedAt, sharedIn = st.Pos(), fnKey(fn)
+		})
+	}
+	switch {
+	case sharedAt.IsValid():
+		r.Bad("C10.L1", "kmipclient/Client-conn-own", sharedAt, "%s gives a Client a connection that was not made for it (not newConn(...)): two Client values then drive one connection, each under its own mutex, so their exchanges interleave and one caller receives the other's response", sharedIn)
+	case nConn == 0:
+		r.Unk("C10.L1", "kmipclient/Client-conn-own", token.NoPos, "no assignment of a Client's connection found")
+	default:
+		r.OK("C10.L1", "kmipclient/Client-conn-own", token.NoPos, "%d assignment(s) of a Client's connection, each a connection made by newConn for that client", nConn)
+	}
 	if okAll && nLit >= 2 {
 		r.OK("C10.L1", "kmipclient/Client-literals", token.NoPos, "all %d Client literals create a fresh mutex", nLit)
 	} else if nLit < 2 {
@@ -545,6 +583,7 @@ func runC11(r *Run, verifDir string) {
 	c11DialerClosures(r)
 	c11WhoCloses(r)
 	c11M6(r)
+	r.Import("C11.M13", "the client's negotiated version is set only at construction (enforced version, clone's copy) or by a successful negotiation: a fault during an exchange can never leave it nil for the next call", 4, "C13", "C13.N4", nil)
 }
 
 func c11M1(r *Run) {
